@@ -29,6 +29,8 @@ type Program struct {
 	Contracts map[*ssa.Function]*Contract
 	Iface     map[string]*Contract // "pkgpath.Iface.Method" -> contract
 	IfaceImpls map[string][]*ssa.Function // same key -> the module's methods implementing it
+	FuncTypeImpls map[string][]*ssa.Function // functype name -> module functions used as values of it
+	ExtFuncValues map[string][]string // functype name -> external functions stored as values of it (assumed to satisfy it)
 	ChanInv   map[string]*Contract // "Type.field" -> contract
 	FuncType  map[string]*Contract
 	Unbound   []string
@@ -166,6 +168,7 @@ func LoadProgram(repo string) (*Program, error) {
 			if prev := P.ChanInv[c.Name]; prev != nil {
 				prev.Ensures = append(prev.Ensures, c.Ensures...)
 				prev.Assumes = append(prev.Assumes, c.Assumes...)
+				prev.OnClose = append(prev.OnClose, c.OnClose...)
 				prev.Requires = append(prev.Requires, c.Requires...)
 			} else {
 				P.ChanInv[c.Name] = c
@@ -175,7 +178,144 @@ func LoadProgram(repo string) (*Program, error) {
 		}
 	}
 	P.bindImplementations(byRel)
+	P.bindFuncValues()
 	return P, nil
+}
+
+// bindFuncValues: the same for function values. A function of the module (closure or named)
+// that is stored in a struct field with a `functype <Struct.field>` contract, or converted to
+// a named func type with one, must satisfy that contract: its postconditions are added to the
+// function's own (label functype:<name>:<label>), its frame where the function declares none,
+// and its preconditions must imply the function's own (refine obligations). Clauses that
+// mention `self` (the object holding the field) cannot be stated for the function alone and
+// are left to the call sites. External functions stored this way are assumed to satisfy the
+// contract and are listed (ExtFuncValues).
+func (P *Program) bindFuncValues() {
+	P.ExtFuncValues = map[string][]string{}
+	P.FuncTypeImpls = map[string][]*ssa.Function{}
+	var fns []*ssa.Function
+	for _, fn := range P.ModFuncs {
+		fns = append(fns, fn)
+	}
+	sort.Slice(fns, func(i, j int) bool { return fns[i].String() < fns[j].String() })
+	done := map[string]bool{}
+	bind := func(name string, ct *Contract, v ssa.Value) {
+		for {
+			if c, ok := v.(*ssa.ChangeType); ok {
+				v = c.X
+				continue
+			}
+			break
+		}
+		var target *ssa.Function
+		switch x := v.(type) {
+		case *ssa.MakeClosure:
+			target = x.Fn.(*ssa.Function)
+		case *ssa.Function:
+			target = x
+		default:
+			return
+		}
+		if target.Blocks == nil || !fnInModule(target) {
+			lst := P.ExtFuncValues[name]
+			for _, e := range lst {
+				if e == target.String() {
+					return
+				}
+			}
+			P.ExtFuncValues[name] = append(lst, target.String())
+			return
+		}
+		key := name + "<-" + target.String()
+		if done[key] {
+			return
+		}
+		done[key] = true
+		tc := P.Contracts[target]
+		if tc != nil && tc.Trusted {
+			return
+		}
+		if tc == nil {
+			tc = &Contract{Kind: "func", Name: relName(target), Pkg: fnPkg(target).Path(), File: ct.File, Line: ct.Line,
+				LoopInv: map[int][]*Clause{}, LoopDec: map[int]*Clause{}, LoopMod: map[int][]*Expr{}, LoopEns: map[int][]*Clause{}, LoopAsm: map[int][]*Clause{}}
+			P.Contracts[target] = tc
+		}
+		ren := map[string]string{}
+		for i, pn := range ct.Params {
+			if i < len(target.Params) {
+				ren[pn] = target.Params[i].Name()
+			}
+		}
+		rc := func(cl *Clause, label string) *Clause {
+			n := *cl
+			n.Expr = renameIdents(cl.Expr, ren)
+			n.Label = label
+			return &n
+		}
+		for i, en := range ct.Ensures {
+			if exprMentions(en.Expr, "self") {
+				continue
+			}
+			l := en.Label
+			if l == "" {
+				l = fmt.Sprint(i + 1)
+			}
+			tc.Ensures = append(tc.Ensures, rc(en, "functype:"+name+":"+l))
+		}
+		if tc.IfaceReq == nil {
+			tc.IfaceReq = map[string][]*Clause{}
+		}
+		tc.IfaceReq[name] = []*Clause{}
+		for _, rq := range ct.Requires {
+			if exprMentions(rq.Expr, "self") {
+				continue
+			}
+			tc.IfaceReq[name] = append(tc.IfaceReq[name], rc(rq, rq.Label))
+		}
+		if !tc.HasMod && ct.HasMod {
+			selfFree := true
+			for _, m := range ct.Modifies {
+				if exprMentions(m, "self") {
+					selfFree = false
+				}
+			}
+			if selfFree {
+				tc.HasMod = true
+				for _, m := range ct.Modifies {
+					tc.Modifies = append(tc.Modifies, renameIdents(m, ren))
+				}
+			}
+		}
+		P.FuncTypeImpls[name] = append(P.FuncTypeImpls[name], target)
+	}
+	for _, fn := range fns {
+		for _, b := range fn.Blocks {
+			for _, in := range b.Instrs {
+				switch x := in.(type) {
+				case *ssa.Store:
+					fa, ok := x.Addr.(*ssa.FieldAddr)
+					if !ok {
+						continue
+					}
+					stT := derefType(fa.X.Type())
+					stt, ok := stT.Underlying().(*types.Struct)
+					if !ok {
+						continue
+					}
+					name := structName(stT) + "." + stt.Field(fa.Field).Name()
+					if ct := P.FuncType[name]; ct != nil {
+						bind(name, ct, x.Val)
+					}
+				case *ssa.ChangeType:
+					if nt, ok := types.Unalias(x.Type()).(*types.Named); ok && inModule(nt.Obj().Pkg()) {
+						if ct := P.FuncType[nt.Obj().Name()]; ct != nil {
+							bind(nt.Obj().Name(), ct, x.X)
+						}
+					}
+				}
+			}
+		}
+	}
 }
 
 // bindImplementations: behavioural subtyping, mechanically. Every method of the module that
